@@ -282,8 +282,9 @@ class GeminiClient:
         if url in redirect_chain:
             raise ValueError(f"Redirect loop detected: {url}")
 
-        # Check max redirects
-        if len(redirect_chain) >= max_redirects:
+        # Check max redirects (redirect_chain holds the redirects followed so far,
+        # so up to max_redirects of them are allowed before this fetch)
+        if len(redirect_chain) > max_redirects:
             raise ValueError(f"Maximum redirects ({max_redirects}) exceeded at: {url}")
 
         # Get the URL
